@@ -343,9 +343,9 @@ func (c *checker) histories() {
 			prev = cur
 		}
 	}
-	maxLen := 4
+	maxLen := 3 // 12 calls in the alphabet: 1728 histories of length 3, 20736 of length 4
 	if r.Thorough() {
-		maxLen = 5
+		maxLen = 4
 	}
 	frontier := []state{{tInit + "|" + gInit, nil}}
 	fixpointAt := -1
